@@ -3662,7 +3662,10 @@ impl TimestampRound {
             self.smallest,
             increment,
         );
-        let nanosecond = UnixNanoseconds::rfrom(rounded);
+        // Rounding up (or down) near the limits of a `Timestamp` can produce
+        // a value that is out of range, so this conversion must be checked.
+        let nanosecond =
+            UnixNanoseconds::try_new128("rounded nanoseconds", rounded.get())?;
         Ok(Timestamp::from_nanosecond_ranged(nanosecond))
     }
 }
